@@ -58,11 +58,16 @@ def parse_case(c):
     t = c.split()
     p, kind, op, n, piv = int(t[0]), t[1], t[2], int(t[3]), int(t[4])
     v = [int(x) % p for x in t[5:]]
+    if piv == 2:
+        piv = 1                                       # 2 = the call uses the default argument doPivoting = true
+    if kind in ("X", "Y"):
+        kind = "F" if kind == "X" else "D"            # matrices obtained by conversion / copy: same expectations
     return p, kind, op, n, piv, v
 
 
-def oracle(case, obs):
-    """None if the property accepts the observation `obs` of the impl on `case`, else (class, reason)."""
+def oracle(case, obs, chk=False):
+    """None if the property accepts the observation `obs` of the impl on `case`, else (class, reason).
+    chk: the build with DUNE_FMatrix_WITH_CHECKING (singular matrices must be reported for n <= 3 too)."""
     p, kind, op, n, piv, v = parse_case(case)
     if op == "nsq":
         return None                                   # non-square: outside the property (model comparison only)
@@ -97,6 +102,8 @@ def oracle(case, obs):
     A = [v[i * n:(i + 1) * n] for i in range(n)]
     dA = det_mod(A, p)
     sing = dA == 0
+    if op == "seq":
+        return oracle_seq(p, n, piv, A, v[n * n:n * n + n], dA, obs, chk)
     if kind == "H":
         if sing:
             return None
@@ -118,7 +125,7 @@ def oracle(case, obs):
     if sing:
         if n >= 4:
             return None if main == "EXC FMatrixError" else ("singular-not-reported", "singular %dx%d matrix but %s" % (n, n, main))
-        return None                                   # n <= 3 singular: property silent
+        return None                                   # n <= 3 singular: property silent (also for the optional checking build)
     defined = piv or n <= 3 or lead_minors_ok(A, p, n)
     if not ok:
         if defined:
@@ -140,9 +147,69 @@ def oracle(case, obs):
     return ("format", "unknown op")
 
 
+def inv_mod(A, p):
+    n = len(A); M = [r[:] + [int(i == j) for j in range(n)] for i, r in enumerate(A)]
+    for c in range(n):
+        r = next((k for k in range(c, n) if M[k][c] % p), None)
+        if r is None:
+            return None
+        M[c], M[r] = M[r], M[c]
+        iv = pow(M[c][c], p - 2, p)
+        M[c] = [x * iv % p for x in M[c]]
+        for k in range(n):
+            if k != c and M[k][c]:
+                f = M[k][c]
+                M[k] = [(x - f * y) % p for x, y in zip(M[k], M[c])]
+    return [r[n:] for r in M]
+
+
+def oracle_seq(p, n, piv, A, b, dA, obs, chk):
+    """det, solve, invert, det of the inverse, invert back, solve again on one object"""
+    main, _, flag = obs.partition(" | ")
+    sing = dA == 0
+    defined = piv or n <= 3 or lead_minors_ok(A, p, n)
+    if main.startswith("EXC"):
+        if sing:
+            if n >= 4:
+                return None if main == "EXC FMatrixError @solve" else ("singular-not-reported", "singular: expected FMatrixError from solve, got %s" % main)
+            return None
+        if defined:
+            Bi = inv_mod(A, p)
+            if main == "EXC FMatrixError @invert2" and not piv and n >= 4 and not lead_minors_ok(Bi, p, n):
+                return None                           # unpivoted elimination of A^-1 undefined: property silent
+            return ("nonsingular-error", "nonsingular (det %d), elimination defined, but %s" % (dA, main))
+        return None if main.startswith("EXC FMatrixError") else ("nonsingular-error", main)
+    if sing:
+        return ("singular-not-reported", "singular matrix went through: %s" % main) if n >= 4 else None
+    try:
+        parts = [[int(x) for x in q.split()] for q in main[2:].split(";")]
+        d, x, B, d2, x2 = parts[0], parts[1], parts[2], parts[3], parts[4]
+    except Exception:
+        return ("format", "unparsable seq: %s" % obs)
+    if not defined and not lead_minors_ok(A, p, n - 1):
+        d = [dA]                                      # unpivoted determinant undefined: property silent
+    I = [[int(i == j) for j in range(n)] for i in range(n)]
+    Bm = [B[i * n:(i + 1) * n] for i in range(n)]
+    if d != [dA]:
+        return ("wrong-det", "seq: det %s, det A = %d" % (d, dA))
+    if mulmv(A, x, p) != b:
+        return ("wrong-solution", "seq: A*x != b")
+    if len(B) != n * n or mulmm(A, Bm, p) != I or mulmm(Bm, A, p) != I:
+        return ("wrong-inverse", "seq: A*B != I")
+    if piv or lead_minors_ok(Bm, p, n - 1) or n <= 3:
+        if (d2[0] * dA) % p != 1 % p:
+            return ("wrong-det", "seq: det(A^-1) * det A != 1")
+    if mulmv(A, x2, p) != b:
+        return ("wrong-solution", "seq: after invert;invert the solution of A x = b is wrong (object state corrupted)")
+    if flag.strip() != "U":
+        return ("state", "seq: invert;invert did not restore A (or b modified)")
+    return None
+
+
 def sig_of(case, cls):
     p, kind, op, n, piv, v = parse_case(case)
-    return "C02:%s:%s:%s:%s" % (op, kind, "n<=3" if n <= 3 else "n>=4", cls)
+    size = "n<=3" if n <= 3 else "n>=4"
+    return "C02:%s:%s:%s:%s" % (op, case.split()[1], size, cls)
 
 
 # ----------------------------------------------------------------------------- generator
@@ -245,11 +312,46 @@ def gen(ctx):
     # (6) non-square DynamicMatrix: FMatrixError from all three
     for r, c in [(2, 3), (4, 5), (5, 4), (1, 2)]:
         cases.append("7 D nsq %d %d" % (r, c))
+    for r, c in [(2, 3), (3, 2), (1, 2), (4, 5)]:
+        cases.append("7 F nsq %d %d" % (r, c))
+
+    # ---- API-coverage streams (mutants/C02/API_COVERAGE.md)
+    def rmat(n, p):
+        z = rng.random()
+        if z < 0.4:
+            return [[rng.randrange(p) for _ in range(n)] for _ in range(n)]
+        if z < 0.6:
+            return [[(rng.randrange(p) if rng.random() < 0.4 else 0) for _ in range(n)] for _ in range(n)]
+        perm = list(range(n)); rng.shuffle(perm)
+        zs = set(i for i in range(n) if rng.random() < (0.25 if rng.random() < 0.4 else 0.0))
+        return plu(rng, n, p, perm, zs, sparse=rng.choice([0.0, 0.3, 0.6]))
+    R2 = 12 if quick else 80
+    for n in range(1, 7):
+        for p in PS:
+            for r in range(R2):
+                A = rmat(n, p)
+                # (7) calls that use the DEFAULT argument (piv token 2)
+                cases += dense_ops(p, "F" if r % 2 else "D", n, A, pivs=(2,))
+                # (8) matrices obtained by converting constructor / assignment / copy, mixed vector types in solve
+                cases += dense_ops(p, "X" if r % 2 else "Y", n, rmat(n, p))
+                # (9) multi-step history on one object: det, solve, invert, det, invert, solve
+                for kind in ("F", "D", "X", "Y")[r % 4:r % 4 + 1]:
+                    A2 = rmat(n, p)
+                    for piv in (0, 1):
+                        cases.append(fmt(p, kind, "seq", n, piv, flat(A2) + [rng.randrange(p) for _ in range(n)]))
+    # (10) larger sizes (DynamicMatrix): n = 12, 16
+    for n in (12, 16):
+        for r in range(4 if quick else 20):
+            p = PS[r % 3]
+            A = rmat(n, p)
+            cases += dense_ops(p, "D", n, A)
+            cases.append(fmt(p, "D", "seq", n, 1, flat(A) + [rng.randrange(p) for _ in range(n)]))
     return cases
 
 
 def build(ctx, san=False):
-    jobs = [dict(srcs=[os.path.join(H, "impl.cc")], out=ctx.path("impl"), opt="-O2", flags=["-I" + H])]
+    jobs = [dict(srcs=[os.path.join(H, "impl.cc")], out=ctx.path("impl"), opt="-O2", flags=["-I" + H]),
+            dict(srcs=[os.path.join(H, "impl.cc")], out=ctx.path("impl_chk"), opt="-O1", flags=["-I" + H, "-DDUNE_FMatrix_WITH_CHECKING"])]
     if san:
         jobs.append(dict(srcs=[os.path.join(H, "impl.cc")], out=ctx.path("impl_san"), san=True, flags=["-I" + H]))
     outs = V.cxx_many(ctx, jobs)
@@ -268,15 +370,27 @@ def lu_case(c):
     return " ".join(t[:2] + ["lu"] + t[3:5] + t[5:5 + n * n])
 
 
-def judge(ctx, cases, mo, io, limit=200):
+def judge(ctx, cases, mo, io, limit=200, chk=False):
     stats = {"oracle_rejections": 0, "impl_model_disagreements": 0, "spec_cross_check_mismatch": 0}
+    if chk:
+        stats["singular_n<=3_observed_not_judged"] = {}
     for c, m, a in zip(cases, mo, io):
         mm, _, specdet = m.partition(" # ")
-        r = oracle(c, a)
+        if chk:
+            # the optional DUNE_FMatrix_WITH_CHECKING mode for n <= 3 is outside the property: singular inputs of size <= 3
+            # are recorded (what the impl did), never judged and never compared with the model
+            p_, k_, op_, n_, piv_, v_ = parse_case(c)
+            if n_ <= 3 and det_mod([v_[i * n_:(i + 1) * n_] for i in range(n_)], p_) == 0:
+                key = "%s n=%d: %s" % (op_, n_, " ".join(a.split(" | ")[0].split()[:2]) if a.startswith("EXC") else "numbers")
+                h = stats["singular_n<=3_observed_not_judged"]
+                h[key] = h.get(key, 0) + 1
+                continue
+        r = oracle(c, a, chk)
         if r is not None:
             stats["oracle_rejections"] += 1
             if stats["oracle_rejections"] <= limit:
-                ctx.violation(sig_of(c, r[0]), {"case": c, "impl": a, "model": mm, "oracle": r[1], "replay_cmd": "bin/check C02 --replay <this file>"})
+                ctx.violation(sig_of(c, r[0]), {"case": c, "impl": a, "model": mm, "oracle": r[1], "mode": "chk" if chk else "default",
+                                                "replay_cmd": "bin/check C02 --replay <this file>"})
         elif a != mm:
             stats["impl_model_disagreements"] += 1
             if stats["impl_model_disagreements"] <= 20:
@@ -284,7 +398,7 @@ def judge(ctx, cases, mo, io, limit=200):
                                                              "oracle": "accepts impl output"}, found_input=False)
         # the model itself must satisfy the oracle (sanity of the reading of the theorems) and the Coq spec
         # determinant must agree with the Python one
-        rm = oracle(c, mm)
+        rm = oracle(c, mm, chk)
         if rm is not None:
             ctx.notes.append("MODEL rejected by oracle on %s: %s" % (c, rm[1]))
             ctx.violation("model:C02/oracle", {"broken": "model violates the spec oracle", "case": c, "model": mm, "oracle": rm[1]}, found_input=False)
@@ -301,12 +415,19 @@ def run(ctx):
     V.coq_stage(ctx)
     model = V.build_model(ctx)
     (outs, deep) = build(ctx, san=True)
-    impl, impl_san = outs[0], outs[1]
+    impl, impl_chk, impl_san = outs[0], outs[1], outs[2]
     cases = gen(ctx)
     ctx.log("generated %d cases" % len(cases))
     mo = V.run_cases(ctx, [model], cases, tag="model", timeout=900)
     io = V.run_cases(ctx, [impl], cases, tag="impl", timeout=60 if ctx.quick else 300)
     stats = judge(ctx, cases, mo, io)
+    # the build with DUNE_FMatrix_WITH_CHECKING (non-default mode): all dense cases of size <= 4
+    cc = [c for c in cases if c.split()[1] in "FDXY" and c.split()[2] in ("solve", "invert", "det", "seq") and int(c.split()[3]) <= 4]
+    cmo = V.run_cases(ctx, [model, "chk"], cc, tag="cmodel", timeout=600)
+    cio = V.run_cases(ctx, [impl_chk], cc, tag="cimpl", timeout=60 if ctx.quick else 300)
+    cstats = judge(ctx, cc, cmo, cio, chk=True)
+    ctx.notes.append("checking build (DUNE_FMatrix_WITH_CHECKING), singular inputs n<=3, observed only (outside property C02): %s"
+                     % json.dumps(cstats.get("singular_n<=3_observed_not_judged", {}), sort_keys=True))
     # sanitizer variant on a subsample
     sub = list(range(0, len(cases), 5 if ctx.quick else 3))
     so = V.run_cases(ctx, [impl_san], [cases[i] for i in sub], tag="san", timeout=300 if ctx.quick else 900)
@@ -333,8 +454,7 @@ def run(ctx):
         if deep_dis:
             ctx.violation("corr:C02/deep-lu", {"broken": "corr:C02/deep (pivot vector / packed LU of luDecomposition differ from the model)",
                                                "count": deep_dis, "first": ctx.notes[-1]}, found_input=False)
-    if not ctx.quick:
-        fp_test(ctx)
+    fp_test(ctx)
     dist = {}
     nontriv = set()
     nsing = 0
@@ -362,6 +482,9 @@ def run(ctx):
         "exhaustive": False, "traces_validated_against_impl": len(cases) + deep_n,
     })
     ctx.coverage.update(stats)
+    ctx.coverage["with_checking_build"] = dict(cases=len(cc), **cstats)
+    ctx.coverage["evaluations"] += len(cc)
+    ctx.coverage["traces_validated_against_impl"] += len(cc)
     ctx.assumptions += [
         "the model code is polymorphic in the record of field operations; theorems are about its instance at a mathcomp fieldType, the "
         "correspondence runs its instance at Z mod p (c02_zp) — the two are linked by parametricity of the same Gallina code, not by a theorem",
@@ -396,10 +519,12 @@ def replay(ctx, path):
     rep = json.load(open(path))
     case = rep["case"]
     model = V.build_model(ctx)
-    impl = V.cxx(ctx, [os.path.join(H, "impl.cc")], ctx.path("impl"), opt="-O2", flags=["-I" + H])
-    mo = V.run_cases(ctx, [model], [case], tag="rmodel")
+    chk = rep.get("mode") == "chk"
+    impl = V.cxx(ctx, [os.path.join(H, "impl.cc")], ctx.path("impl_chk" if chk else "impl"), opt="-O1",
+                 flags=["-I" + H] + (["-DDUNE_FMatrix_WITH_CHECKING"] if chk else []))
+    mo = V.run_cases(ctx, [model] + (["chk"] if chk else []), [case], tag="rmodel")
     io = V.run_cases(ctx, [impl], [case], tag="rimpl", timeout=20)
-    print("case  :", case); print("impl  :", io[0]); print("model :", mo[0])
-    r = oracle(case, io[0])
+    print("case  :", case, "(DUNE_FMatrix_WITH_CHECKING build)" if chk else ""); print("impl  :", io[0]); print("model :", mo[0])
+    r = oracle(case, io[0], chk)
     print("oracle:", r[1] if r else "accepts")
     return 1 if r else 0
